@@ -13,7 +13,7 @@
 From AGH Require Export Base.Run Model.Stats Model.StatsShutdown.
 Local Open Scope Z_scope.
 
-Definition mkE (r d c : Z) (ups : list (Z * bool)) (us : Z) : entry :=
+Definition mkE (r d c : Z) (ups : list (Z * bool * Z)) (us : Z) : entry :=
   {| e_res := r; e_dom := d; e_cli := c; e_ups := ups; e_time := us |}.
 
 (** What the harness reads after a step. *)
@@ -36,6 +36,9 @@ Inductive obs :=
       (avg : Z)                         (* avg_processing_time in whole microseconds *)
       (info : Z)                        (* GET /control/stats_info: interval *)
       (tcip : list Z)                   (* sorted keys of TopClientsIP(1000) *)
+      (upt : list (Z * (Z * Z)))        (* per upstream with responses and a non-zero time sum, by key:
+                                           (merged time sum in microseconds, merged responses), read
+                                           through loadUnits; the answered float is checked in Go *)
   | ObsSkip                             (* nothing read after this step (inside a burst of updates,
                                            between the steps of a reset) *)
   | ObsResp                             (* one answer of GET /control/stats, nothing else *)
@@ -84,18 +87,19 @@ Definition observe (p : bool) (s : state) : obs :=
     [sparse (d_dns d); sparse (d_blocked d); sparse (d_sb d); sparse (d_par d)]
     (map stable_part [d_top_dom d; d_top_blk d; d_top_cli d; d_top_up d])
     (fold_right (fun p acc => ins (fst p) (u_total (snd p)) acc) [] (db s))
-    (d_avg d) (stats_info s) (top_clients_ip s).
+    (d_avg d) (stats_info s) (top_clients_ip s) (d_up_avg d).
 
 Definition eqb_zz (a b : Z * Z) := (fst a =? fst b) && (snd a =? snd b).
+Definition eqb_zzz (a b : Z * (Z * Z)) := (fst a =? fst b) && eqb_zz (snd a) (snd b).
 
 Definition eqb_obs (a b : obs) : bool :=
   match a, b with
-  | Obs p1 x1 m1 e1 c1 t1 d1 n1 s1 o1 u1 a1 i1 k1, Obs p2 x2 m2 e2 c2 t2 d2 n2 s2 o2 u2 a2 i2 k2 =>
+  | Obs p1 x1 m1 e1 c1 t1 d1 n1 s1 o1 u1 a1 i1 k1 w1, Obs p2 x2 m2 e2 c2 t2 d2 n2 s2 o2 u2 a2 i2 k2 w2 =>
       Bool.eqb p1 p2 && (x1 =? x2) && (m1 =? m2) && Bool.eqb e1 e2 && (c1 =? c2) &&
       eqb_list Z.eqb t1 t2 && Bool.eqb d1 d2 && (n1 =? n2) &&
       eqb_list (eqb_list eqb_zz) s1 s2 && eqb_list (eqb_list eqb_zz) o1 (map stable_part o2) &&
-      eqb_list eqb_zz u1 u2 && (a1 =? a2) && (i1 =? i2) && eqb_list Z.eqb k1 k2
-  | Obs _ _ _ _ _ t1 d1 n1 s1 o1 _ a1 _ _, ObsResp t2 d2 n2 s2 o2 a2 =>
+      eqb_list eqb_zz u1 u2 && (a1 =? a2) && (i1 =? i2) && eqb_list Z.eqb k1 k2 && eqb_list eqb_zzz w1 w2
+  | Obs _ _ _ _ _ t1 d1 n1 s1 o1 _ a1 _ _ _, ObsResp t2 d2 n2 s2 o2 a2 =>
       eqb_list Z.eqb (match t1 with a :: _ :: r => a :: r | _ => t1 end) t2 &&
       Bool.eqb d1 d2 && (n1 =? n2) &&
       eqb_list (eqb_list eqb_zz) s1 s2 && eqb_list (eqb_list eqb_zz) o1 (map stable_part o2) && (a1 =? a2)
